@@ -827,3 +827,60 @@ def run(index, rep, tier):
                         rep.check(False, "R09.27", mf.qualname, "command word overwritten by a statement's result", fn_where(mf, st), "",
                                   "NexusReader.%s assigns `%s` to the variable its loop dispatches on: the result is text from the document (a block title), and the tests that follow - and the loop's own END test - take it for a command. A data set with two namespaces, the first labelled `END`, is written with `TITLE END;` and read back with a namespace that lost every taxon without a sequence; labelled `TAXLABELS`, its `DIMENSIONS NTAX=3;` is read as three taxon labels" % (mname, norm_stmt(st)[:60]))
         rep.floor("R09.27", "block loops dispatching on a command word", 2, n27)
+
+    # ---- R09.28 a block is titled exactly when it is linked to
+    with rep.section("R09.28"):
+        rep.rule("R09.28", "a block is titled exactly when it is linked to: NexusWriter._write_block_title and _write_link_to_taxa_block leave early on the same conditions (whether blocks are linked at all, and whether _get_block_title gives a title for the block) - a TITLE that is left out for an unlabelled namespace while the CHARACTERS / TREES blocks still write `LINK TAXA = <generated title>` produces a document that the reader refuses (UndefinedBlockError)")
+        sib = {}
+        for nm in ("_write_block_title", "_write_link_to_taxa_block"):
+            f = index.function("dendropy.dataio.nexuswriter.NexusWriter." + nm)
+            prm = [p_ for p_ in f.params if p_ not in ("self", "stream")]
+            if len(prm) != 1:
+                raise AnalysisError("R09.28: %s: the block parameter not recognised" % nm)
+            loc = {t.id: norm(a.value) for a in walk_no_nested(f.node) if isinstance(a, ast.Assign) for t in a.targets if isinstance(t, ast.Name)}
+            guards = set()
+            for st in walk_no_nested(f.node):
+                if isinstance(st, ast.If) and any(isinstance(x, ast.Return) for x in st.body):
+                    for atom in (st.test.values if isinstance(st.test, ast.BoolOp) and isinstance(st.test.op, ast.Or) else [st.test]):
+                        txt = norm(atom)
+                        for k, v in loc.items():
+                            txt = re.sub(r"\b%s\b" % re.escape(k), "(%s)" % v, txt)
+                        txt = re.sub(r"\b%s\b" % re.escape(prm[0]), "$block", txt)
+                        guards.add(txt)
+            sib[nm] = (f, guards)
+        (f1, g1), (f2, g2) = sib["_write_block_title"], sib["_write_link_to_taxa_block"]
+        rep.check(g1 == g2, "R09.28", f1.qualname, "TITLE and LINK written on different conditions", fn_where(f1), "TITLE and LINK TAXA are written on the same conditions (%d early-return conditions each)" % len(g1),
+                  "NexusWriter._write_block_title returns early on %s, _write_link_to_taxa_block on %s: the two must agree, or a block is referred to by a title it was never given - a data set with two unlabelled namespaces is written with `LINK TAXA = <id>` lines and no matching TITLE, and reading it back raises UndefinedBlockError" % (sorted(g1), sorted(g2)))
+
+    # ---- R09.29 a state without a symbol is still written as a state
+    with rep.section("R09.29"):
+        rep.rule("R09.29", "a state without a symbol is still written as a state: a multistate parsed from `{01}` / `(12)` has the symbol None and is rendered through str(state) (`{0,1}`, `(1,2)`). In the writers a read of `<state>.symbol` is either compared with something or made behind `<state>.symbol is not None`; used as the text of the cell or of an attribute unguarded, it writes the word None into the document")
+        n29 = 0
+        for mod in ("dendropy.dataio.nexuswriter", "dendropy.dataio.phylipwriter", "dendropy.dataio.fastawriter", "dendropy.dataio.nexmlwriter"):
+            for f in index.functions_in_module(mod):
+                reads = [x for x in ast.walk(f.node) if isinstance(x, ast.Attribute) and x.attr == "symbol" and isinstance(x.ctx, ast.Load)]
+                if not reads:
+                    continue
+                pm29 = parent_map(f.node)
+                g29 = cfg_of(f)
+                for x in reads:
+                    n29 += 1
+                    par = pm29.get(x)
+                    if isinstance(par, ast.Compare):
+                        continue
+                    xt = norm(x)
+
+                    def unknown(s, l, d, xt=xt):
+                        if s.kind == "test" and isinstance(s.ast, ast.Compare) and len(s.ast.ops) == 1 and norm(s.ast.left) == xt and is_none(s.ast.comparators[0]):
+                            if isinstance(s.ast.ops[0], ast.IsNot):
+                                return l != "t"
+                            if isinstance(s.ast.ops[0], ast.Is):
+                                return l != "f"
+                        if s.kind == "test" and norm(s.ast) == xt:
+                            return l != "t"
+                        return True
+                    nd = node_of_ast(g29, x)
+                    seen = g29.reach([g29.entry], follow_exc=False, edge_ok=unknown)
+                    rep.check(nd is not None and nd not in seen, "R09.29", f.qualname, "`%s` written without a None test" % xt, fn_where(f, x), "%s: `%s` used only where it is set" % (f.name, xt),
+                              "%s uses `%s` as text on a path that has not established that the state HAS a symbol: an ambiguous or polymorphic state parsed from `{01}` / `(12)` has the symbol None, so the document gets the word `None` - a NEXUS cell `None` is read back as the states N, o, n, e (InvalidCharacterStateSymbolError), a NeXML state `symbol=\"None\"` as a state called None (and two of them collide)" % (f.qualname, xt))
+        rep.floor("R09.29", "reads of a state's symbol in the writers", 5, n29)
